@@ -28,8 +28,8 @@ Init == l = 1 /\ hs = [i \in 0..(NSLOT - 1) |-> None]
 DoInit == Is("init") /\ Step([i \in 0..(NSLOT - 1) |-> None], TRUE)
 DoNew == Is("new") /\ Step([hs EXCEPT ![e.h] = Fresh(e.alg, e.key, e.outlen)], NoPanic)
 DoUpdate == Is("update") /\ Step([hs EXCEPT ![e.h] = Update(H, e.data)], NoPanic /\ H.mode = "in")
-\* SHA-2 only, and only on whole-block boundaries of what was absorbed so far (the buffer position is the counter mod block)
-DoSkip == Is("skip") /\ Step([hs EXCEPT ![e.h] = Skip(H, FromBytesLE(e.blocks))], NoPanic /\ H.mode = "in" /\ H.alg \in Sha2Algs)
+\* SHA-2 and BLAKE2s (verification hooks): the counter moves by whole blocks, the buffer position is unchanged
+DoSkip == Is("skip") /\ Step([hs EXCEPT ![e.h] = Skip(H, FromBytesLE(e.blocks))], NoPanic /\ H.mode = "in" /\ CanSkip(H))
 DoReset == Is("reset") /\ Step([hs EXCEPT ![e.h] = Reset(H)], NoPanic)
 DoClone == Is("clone") /\ Step([hs EXCEPT ![e.h2] = H], NoPanic)
 FinalCalls == {"digest", "finalize", "finalize_reset", "finalize_write", "finalize_reset_write"}
